@@ -364,6 +364,12 @@ def clauses (t : Table α) (op : Op) (o : Out α) : Clauses :=
 
 def holds (t : Table α) (op : Op) (o : Out α) : Bool := (clauses t op o).all (·.2)
 
+/-- calls outside this guard make the code raise `ValueError` from `max([])` (empty `id_map`, or
+`strict=False` on an axis without IDs); the theorems about `update_ids` carry it as a hypothesis -/
+def nondegenerate (t : Table α) : Op → Bool
+  | .updateIds m ax strict _ => !(m.isEmpty || (!strict && (t.ids ax).isEmpty))
+  | _ => true
+
 def firstFailing (cs : Clauses) : Option String := (cs.find? (fun c => !c.2)).map (·.1)
 
 /-- "restores the original IDs, order, values and metadata": content equality of two tables -/
@@ -433,7 +439,7 @@ def handle (req : Json) : R Json := do
   let agree := resultAgrees mo.result obs.result && decide (mo.after = obs.after) &&
     mo.same == obs.same && mo.sortArg == obs.sortArg
   pure (Json.mkObj (verdictToJson (firstFailing cs) ++
-    [("agree", .bool agree), ("model", outToJson mo), ("model_holds", .bool (holds t op mo)),
+    [("agree", .bool agree), ("guard", .bool (nondegenerate t op)), ("model", outToJson mo), ("model_holds", .bool (holds t op mo)),
      ("model_clause", optToJson Json.str (firstFailing (clauses t op mo)))]))
 
 end Biom.C06
